@@ -17,12 +17,13 @@ PROOF_MODULES = []   # the C10 .v files are compiled by build_coq below (not yet
 RULE_CLASSES = ["Sin", "Cos", "Tan", "Cot", "Sec", "Csc", "ASin", "ACos", "ATan", "ACot", "ASec", "ACsc",
                 "Sinh", "Cosh", "Tanh", "Coth", "Sech", "Csch", "ASinh", "ACosh", "ATanh", "ACoth", "ASech", "ACsch", "Log"]
 # my Coq files in dependency order, as stages (the files of one stage do not depend on each other)
-STAGES = [["C10/DiffRuleAst.v"], ["C10/Gen_DiffRules.v"], ["C10/DiffModel.v"], ["C10/DiffInd.v", "C10/DiffSem.v"],
+STAGES = [["C10/DiffRuleAst.v", "C10/DiffPoly.v"], ["C10/Gen_DiffRules.v"], ["C10/DiffModel.v"], ["C10/DiffInd.v", "C10/DiffSem.v"],
           ["C10/DiffAbsent.v", "C10/DiffCache.v", "C10/DiffReal.v"], ["C10/RuleSpec.v"],
-          ["C10/RS_%s.v" % c for c in RULE_CLASSES], ["C10/RulesAll.v"], ["C10/DiffSound.v"]]
+          ["C10/RS_%s.v" % c for c in RULE_CLASSES], ["C10/RulesAll.v", "C10/DiffPolyProofs.v"], ["C10/DiffSound.v"]]
 OBLIGATIONS = (["C10/P_rule_%s.v" % c for c in RULE_CLASSES] +
                ["C10/P_diff_sound.v", "C10/P_diff_absent.v", "C10/P_diff_cache_irrelevant.v",
-                "C10/P_diff_cache_invariant.v", "C10/P_transcription_current.v", "C10/P_nonvacuous.v"])
+                "C10/P_diff_cache_invariant.v", "C10/P_transcription_current.v", "C10/P_poly_uint_sound.v",
+                "C10/P_poly_urat_sound.v", "C10/P_nonvacuous.v"])
 
 F1_RULE = ["sin", "cos", "tan", "cot", "sec", "csc", "asin", "acos", "atan", "acot", "asec", "acsc",
            "sinh", "cosh", "tanh", "coth", "sech", "csch", "asinh", "acosh", "atanh", "acoth", "asech", "acsch",
@@ -218,6 +219,73 @@ def gen_cases(rng, tier, n):
     return out
 
 
+def gen_poly(rng, tier):
+    kind = rng.choice(["uint", "uint", "urat", "mint", "mint", "uexpr"])
+    big = [0, 1, 2, 3, 5, 10, 64, 1000, 65535, 4294967295]
+    if kind in ("uint", "urat", "uexpr"):
+        var = rng.choice(["x", "y"])
+        wrt = rng.choice([var, var, var, "z"])
+        ks = sorted(set(rng.choice(big) if rng.random() < 0.3 else rng.randint(0, 12) for _ in range(rng.randint(0, 6))))
+        if kind == "uexpr":
+            ks = sorted(set(k - rng.choice([0, 0, 3, 20]) for k in ks if k < 100000))
+        ts = []
+        for k in ks:
+            if kind == "uint":
+                c = rng.choice([1, -1, 2, -7, 18446744073709551617, rng.randint(-50, 50) or 3])
+                ts.append("%d:%d" % (k, c))
+            elif kind == "urat":
+                n = rng.choice([1, -3, 5, 36893488147419103232, rng.randint(-30, 30) or 1])
+                d = rng.choice([1, 2, 3, 6, 12, 7, 4294967296])
+                ts.append("%d:%d/%d" % (k, n, d))
+            else:
+                ts.append("%d:%s" % (k, rng.choice(["(s a)", "(i 3)", "(add (s a) (i 1))", "(mul (s a) (s b))", "(q 1 2)", "(f1 sin (s a))"])))
+        return "P\t%s\t%s\t%s\t%s" % (kind, var, wrt, ",".join(ts) or "-")
+    names = rng.sample(["x", "y", "z", "w"], rng.randint(1, 3))
+    wrt = rng.choice(names + ["q"])
+    ms = set()
+    for _ in range(rng.randint(0, 6)):
+        ms.add(tuple(rng.choice([0, 0, 1, 2, 3, 7, 4294967295]) for _ in names))
+    ts = ["%s:%d" % (".".join(str(k) for k in m), rng.choice([1, -1, 5, -12, 18446744073709551617])) for m in sorted(ms)]
+    return "P\tmint\t%s\t%s\t%s" % (",".join(names), wrt, ";".join(ts) or "-")
+
+
+POLY_CORPUS = [
+    "P\tuint\tx\tx\t0:3,2:5,7:-2", "P\tuint\tx\ty\t0:3,2:5", "P\tuint\tx\tx\t-", "P\tuint\tx\tx\t0:7",
+    "P\tuint\tx\tx\t4294967295:1,1:1", "P\turat\tx\tx\t1:3/4,4:1/6,0:2", "P\turat\tx\tx\t6:1/6,12:5/12",
+    "P\tmint\tx,y\ty\t2.1:3;0.2:5;1.0:7", "P\tmint\ty,x\tx\t2.1:3;0.2:5;1.0:7", "P\tmint\tx,y\tz\t2.1:3",
+    "P\tuexpr\tx\tx\t-1:(s a),2:(add (s a) (i 1)),0:(i 4)", "P\tuexpr\tx\ty\t1:(s y)",
+]
+
+
+def explore_poly(ctx, drv, model, cases):
+    if drv is None or model is None:
+        return
+    impl = ctx.run_lines(drv, cases, timeout=1800, shards=16)
+    mod = ctx.run_lines(model, cases, timeout=1800, shards=4)
+    ctx.cov["evaluations"] += len(cases)
+    ctx.cov["poly_cases"] = ctx.cov.get("poly_cases", 0) + len(cases)
+    nd = 0
+    for c, i, m in zip(cases, impl, mod):
+        canon, _, rest = i.partition("\t")
+        if "#ORACLE:" in rest:
+            ctx.violation("C10/poly-wrong-derivative:" + c.split("\t")[1], "case `%s`: %s" % (c, rest[rest.index("#ORACLE:") + 8:]),
+                          {"family": "C10", "case": c, "impl": i})
+        elif "CRASH" in i or "HANG" in i or i.startswith("NOOUTPUT"):
+            ctx.violation("C10/poly-crash:" + c.split("\t")[1], "case `%s` ends with %s" % (c, i[-40:]), {"family": "C10", "case": c, "impl": i})
+        elif m.startswith("UNSUPPORTED"):
+            ctx.cov["poly_oracle_only"] = ctx.cov.get("poly_oracle_only", 0) + 1
+        elif canon != m:
+            nd += 1
+            if nd <= 3:
+                ctx.broken.append({"kind": "correspondence", "name": "C10 polynomial diff",
+                                   "detail": "case `%s`\n model: %s\n impl:  %s" % (c, m, i)})
+        else:
+            ctx.cov["traces_validated_against_impl"] += 1
+            if canon.split(" ")[-1] != "-":
+                ctx.cov["distinct_nontrivial"] += 0  # counted through the set below
+    ctx.cov["distinct_nontrivial"] += len(set(c for c, i in zip(cases, impl) if i.split("\t")[0].split(" ")[-1] != "-"))
+
+
 # ---------------------------------------------------------------------------------------- exploration
 NOT_ARITH = re.compile(r"\((Bool|Lex|Interval|Atom|F1 Not|F2 (Equality|Unequality|LessThan|StrictLessThan)|FN (And|Or|Xor|FiniteSet|Union|Intersection)|Opaque)\b")
 SYM_LEAF = re.compile(r"\((Sym|Dummy) (x[0-9a-f]*)( \d+)?\)")
@@ -381,6 +449,8 @@ def run(ctx):
     n = 420 if ctx.tier == "quick" else 12000
     cases = list(CORPUS) + class_cases() + gen_cases(ctx.rng, ctx.tier, n)
     explore(ctx, drv, model, cases)
+    npoly = 120 if ctx.tier == "quick" else 3000
+    explore_poly(ctx, drv, model, list(POLY_CORPUS) + [gen_poly(ctx.rng, ctx.tier) for _ in range(npoly)])
     if ctx.broken and not ctx.violations:
         # a proof or the tie broke: search harder for a concrete failing input
         extra = class_cases() + gen_cases(ctx.rng, "thorough", 3000)
@@ -398,13 +468,19 @@ def run(ctx):
         "Pow rule / product rule / Log rule on the construction term; the `visited` cache is modelled for sub-trees of the input only",
         "mul(0, a) = 0 and add(0, a) = a for the literal Integer 0 (a not an infinity/NaN number)",
         "soundness theorems are over the reals (Coquelicot is_derive); complex points are covered by the numeric oracle only",
-        "polynomial classes (UIntPoly, URatPoly, UExprPoly, MIntPoly, MExprPoly), GaloisField, FunctionWrapper, matrices, series: outside the dump format",
+        "polynomial classes: UIntPoly / URatPoly / MIntPoly are modelled on their dictionaries (own case family P); UExprPoly by the oracle only "
+        "(diff of the object against diff of its symbolic form); MExprPoly, GaloisField, FunctionWrapper, matrices, series: not covered",
     ]
 
 
 def replay(ctx, rep):
     drv, model = build(ctx)
     c = rep["replay"]["case"]
+    if c.startswith("P\t"):
+        print("case :", c)
+        print("impl :", ctx.run_lines(drv, [c])[0])
+        print("model:", ctx.run_lines(model, [c])[0])
+        return
     line = ctx.run_lines(drv, [c])[0]
     print("case :", c)
     print("impl :", line)
